@@ -17,6 +17,11 @@ generated harness sub-packages `harness/pa/v1`, `harness/pb/v1`, `harness/pc/v1`
 have the id `<dir>/v1.<Name>` (`pa/v1.ID`): that id - the type's identity - goes to the oracle,
 the Go source text uses the import alias (`v1a.ID`) and reflect prints `v1.ID` for all three.
 Composite types of such elements (`[]v1.ID`, `*v1.ID`, `map[string]v1.ID`, ...) print identically too.
+
+Besides field types, every batch declares CONTAINER types in those packages (TwinGen / corner_twins: `pa/v1.Box`,
+`pb/v1.Box`, `pc/v1.Box` with different layouts, `pa/v1.Doc` and `pb/v1.Doc` with one layout, random groups): distinct
+struct types that print identically (`v1.Box`), all derived / listed / used by the same harness process through the
+ordinary request streams, the order of a group's members varying from batch to batch.
 """
 import binascii
 
@@ -140,15 +145,16 @@ def foreign_ids(t):
     return set()
 
 
-def foreign_source(pkg):
-    """Source of harness/<pkg>/v1/v1.go."""
+def foreign_source(pkg, extra=()):
+    """Source of harness/<pkg>/v1/v1.go.  extra = [(Name, underlying)]: the container types (and their inner struct types)
+    a batch declares in this package (same-printing containers, see TwinGen)."""
     return ("// Code generated by checks/shapes.py. DO NOT EDIT.\n\n// Package v1 (import path harness/%s/v1) shares its package name and its type names with the\n"
-            "// sibling packages: reflect prints `v1.<Name>` for all of them.\npackage v1\n\n" % pkg
-            + "\n".join("type %s %s" % (n, gosrc(u)) for n, u in FOREIGN[pkg].items()) + "\n")
+            "// sibling packages: reflect prints `v1.<Name>` for all of them.\npackage v1\n\nimport \"unsafe\"\n\nvar _ unsafe.Pointer\n\n" % pkg
+            + "\n".join("type %s %s" % (n, gosrc(u, pkg)) for n, u in list(FOREIGN[pkg].items()) + list(extra)) + "\n")
 
 
-def foreign_files():
-    return {"%s/v1/v1.go" % pkg: foreign_source(pkg) for pkg in FOREIGN}
+def foreign_files(extra=None):
+    return {"%s/v1/v1.go" % pkg: foreign_source(pkg, (extra or {}).get(pkg, ())) for pkg in FOREIGN}
 
 
 PRIM_SA = {"bool": (1, 1), "int8": (1, 1), "uint8": (1, 1), "int16": (2, 2), "uint16": (2, 2), "int32": (4, 4), "uint32": (4, 4), "float32": (4, 4),
@@ -225,34 +231,35 @@ def sexpr(t, cur=None):
     raise ValueError(t)
 
 
-def gosrc(t):
-    """Go source text of a type (defined types by name)."""
+def gosrc(t, pkg=None):
+    """Go source text of a type (defined types by name).  pkg = the harness package ("pa", ...) the text is written in:
+    its own defined types are unqualified there; None = package main (import aliases v1a, v1b, v1c)."""
     k = t[0]
     if k == "prim":
         return GOPRIM.get(t[1], t[1])
     if k == "slice":
-        return "[]" + gosrc(t[1])
+        return "[]" + gosrc(t[1], pkg)
     if k == "ptr":
-        return "*" + gosrc(t[1])
+        return "*" + gosrc(t[1], pkg)
     if k == "chan":
-        return "chan " + gosrc(t[1])
+        return "chan " + gosrc(t[1], pkg)
     if k == "map":
-        return "map[%s]%s" % (gosrc(t[1]), gosrc(t[2]))
+        return "map[%s]%s" % (gosrc(t[1], pkg), gosrc(t[2], pkg))
     if k == "func":
         return t[1]
     if k == "array":
-        return "[%d]%s" % (t[1], gosrc(t[2]))
+        return "[%d]%s" % (t[1], gosrc(t[2], pkg))
     if k == "named":
         if is_foreign(t):
             d, nm = foreign_parts(t[1])
-            return FOREIGN_ALIAS[d] + "." + nm
+            return nm if d == pkg else FOREIGN_ALIAS[d] + "." + nm
         return t[1]
     if k == "struct":
         if not t[1]:
             return "struct{}"
         fs = []
         for (n, e, tg, ft) in t[1]:
-            s = gosrc(ft) if e else n + " " + gosrc(ft)
+            s = gosrc(ft, pkg) if e else n + " " + gosrc(ft, pkg)
             if tg:
                 s += " `" + tg + "`"
             fs.append(s)
@@ -569,7 +576,8 @@ class Shape:
         for i, e in enumerate(self.listing):
             e["id"] = i
         self.paths = value_paths(typ)
-        self.gotype = typ[1]
+        self.gotype = gosrc(typ)      # `T7` for a type of package main, `v1a.Box` for one of harness/pa/v1
+        self.twins = []               # the OTHER container shapes of the batch that reflect prints like this one (TwinGen)
         # listed types that share their printed name with ANOTHER listed type, in listing order of first occurrence
         first, byprint = [], {}
         for e in self.listing:
@@ -607,6 +615,307 @@ def make_shapes(rng, n, first_sid=0, ptr_embed=True, corners=True, collide=None)
     return shapes
 
 
+# ------------------------------------------------------------------ CONTAINER types that print identically
+# Container shapes declared in the harness packages: the SAME type name (`Box`, `Doc`, ...) in two or three of
+# harness/pa/v1, pb/v1, pc/v1 - reflect prints `v1.Box` for each of them - with different layouts (field order, sizes,
+# names, tags, embedded structs) or with the same one.  All of a group are unfolded / derived / used by the same harness
+# process, in an order that varies from batch to batch: whatever hseq or optics keep between calls must be keyed by the
+# type's identity, not by what it prints.  Every field name is exported (package main reads every field through ordinary
+# selectors for the direct oracle); inner struct types are declared in the container's package under equal names too.
+# The id of such a type is `<dir>/v1.<Name>` (distinct per package: that is what the Lean oracle compares).
+
+TWIN_RULE = '; every batch also holds container types declared in the harness packages harness/pa/v1, pb/v1, pc/v1 under the SAME name (reflect prints `v1.Box` for each: hand-written Box x3 with different layouts and Doc x2 with one layout, plus random groups - same source text, permuted, retyped, renamed, mixed, independent), all members of a group going through the same request streams in ONE harness process, in an order that varies from batch to batch (distribution.same_printing_container_*)'
+TWIN_ASSUMPTION = 'same-printing CONTAINER types have exported field names only (package main reads every field through selectors) and use types of their own package, prims and anonymous structs of exported fields; the oracle gets distinct ids (`pa/v1.Box`, `pb/v1.Box`) for them'
+TWIN_NAMES = ["Box", "Doc", "Row", "Item", "Node", "Cell", "Page", "Meta"]
+XNAMES = ["A", "B", "C", "D", "E", "X", "Y", "Z", "Id", "Name", "Val", "Key", "Next", "F1", "F2", "F3", "G4", "H5"]
+TWIN_SID0 = 100000        # sids of these shapes: TWIN_SID0 + 1000 * batch + k (the other shapes keep their sids)
+TWIN_VARIANTS = ["same-source", "permuted", "retyped", "renamed", "mixed", "fresh", "fresh"]
+
+
+class TwinGen:
+    """One group: the container type `<dir>/v1.<name>` for each package of `pkgs` (in that order).  The first package gets
+    a random body; every further one a variant of it (TWIN_VARIANTS) written with the types of its own package:
+      same-source  the same Go source text (layouts differ only where the packages' own types differ: v1.ID is a string
+                   in pa, an int32 in pb, a uint8 in pc)
+      permuted     the same fields in another order (same names and types, other offsets)
+      retyped      the same names, about half of the plain fields of another type (other sizes, other offsets behind them)
+      renamed      the same types, some names / hseq tags changed
+      mixed        permuted + retyped + renamed, a field dropped or added
+      fresh        an independent body (the inner struct types share their names all the same)."""
+
+    def __init__(self, rng, name, pkgs, ptr_embed=True, variants=None):
+        self.rng, self.name, self.pkgs, self.ptr_embed = rng, name, pkgs, ptr_embed
+        self.maxdepth = rng.choice([0, 1, 1, 2, 2, 3])
+        self.decls = {p: [] for p in pkgs}       # pkg -> [(id, underlying)] in dependency order
+        self.inner = {p: {} for p in pkgs}       # pkg -> {Name: underlying} of the generated inner struct types
+        self.members = []                        # (pkg, variant, type)
+        base = None
+        for i, p in enumerate(pkgs):
+            v = "base" if i == 0 else (variants[i - 1] if variants else rng.choice(TWIN_VARIANTS))
+            body = None
+            if i > 0 and v != "fresh":
+                body = self.variant(base, pkgs[0], p, v)
+            if body is None:
+                v = "base" if i == 0 else "fresh"
+                body = self.body(p, 0, rng.randint(1, 9))
+            if i == 0:
+                base = body
+            cid = "%s/v1.%s" % (p, name)
+            self.decls[p].append((cid, body))
+            self.members.append((p, v, ("named", cid, body)))
+
+    # ---- random bodies
+    def tag(self):
+        r = self.rng
+        if r.random() > 0.3:
+            return ""
+        key = r.choice(XNAMES[:10])
+        return r.choice(['hseq:"%s"' % key, 'hseq:"%s,opt"' % key, 'json:"j_%s" hseq:"%s"' % (key, key), 'json:"%s"' % key, 'hseq:",omit"',
+                         'hseq:""', 'hseq:%s' % key, 'hseq: "%s"' % key, 'xhseq:"%s"' % key])
+
+    def leaf(self, pkg, depth=0):
+        r = self.rng
+        x = r.random()
+        if x < 0.45 or depth >= 2:
+            return P(r.choice(PRIMS))
+        if x < 0.62:
+            return foreign(pkg, r.choice(sorted(FOREIGN[pkg])))
+        c = r.choice(["slice", "ptr", "array", "array", "map", "chan", "func", "struct", "empty"])
+        if c == "slice":
+            return ("slice", self.leaf(pkg, depth + 1))
+        if c == "ptr":
+            return ("ptr", self.leaf(pkg, depth + 1))
+        if c == "array":
+            return ("array", r.choice([0, 0, 1, 2, 3, 3, 5]), self.leaf(pkg, depth + 1))
+        if c == "map":
+            return ("map", P(r.choice(MAPKEYS)), self.leaf(pkg, depth + 1))
+        if c == "chan":
+            return ("chan", self.leaf(pkg, depth + 1))
+        if c == "func":
+            return ("func", r.choice(FUNCS))
+        if c == "empty":
+            return ("struct", ())
+        fs = []
+        for n in r.sample(["X", "Y", "Z", "W"], r.randint(1, 3)):     # exported: the same anonymous struct type in every package
+            fs.append((n, False, 'json:"%s"' % n.lower() if r.random() < 0.15 else "", P(r.choice(PRIMS)) if r.random() < 0.8 else ("array", r.choice([0, 2, 3]), P(r.choice(PRIMS)))))
+        return ("struct", tuple(fs))
+
+    def new_inner(self, pkg, level):
+        k = 1
+        while "%sIn%d" % (self.name, k) in self.inner[pkg]:
+            k += 1
+        nm = "%sIn%d" % (self.name, k)
+        self.inner[pkg][nm] = None      # reserve the name
+        body = self.body(pkg, level, self.rng.choice([0, 1, 1, 2, 2, 3, 3, 4]))
+        self.inner[pkg][nm] = body
+        self.decls[pkg].append(("%s/v1.%s" % (pkg, nm), body))
+        return ("named", "%s/v1.%s" % (pkg, nm), body)
+
+    def fresh_name(self, used):
+        for _ in range(50):
+            nm = self.rng.choice(XNAMES)
+            if nm not in used:
+                return nm
+        i = 0
+        while "G%d" % i in used:
+            i += 1
+        return "G%d" % i
+
+    def body(self, pkg, level, n):
+        r = self.rng
+        fs, used = [], set()
+        for _ in range(n):
+            x = r.random()
+            deeper = level < self.maxdepth
+            f = None
+            if deeper and x < 0.20:
+                t = self.new_inner(pkg, level + 1)
+                f = (foreign_parts(t[1])[1], True, self.tag() if r.random() < 0.3 else "", t)
+            elif deeper and self.ptr_embed and x < 0.27:
+                t = self.new_inner(pkg, level + 1)
+                f = (foreign_parts(t[1])[1], True, self.tag() if r.random() < 0.3 else "", ("ptr", t))
+            elif x < 0.36:
+                # a type of the container's own package embedded by value / through a pointer (struct: v1.Rec, v1.Pair)
+                nm = r.choice(sorted(FOREIGN[pkg]))
+                byptr = self.ptr_embed and nm in ("ID", "Code", "Rec", "Same", "Pair") and r.random() < 0.3
+                if nm not in used:
+                    f = (nm, True, self.tag() if r.random() < 0.3 else "", ("ptr", foreign(pkg, nm)) if byptr else foreign(pkg, nm))
+            elif deeper and x < 0.43:
+                t = self.new_inner(pkg, level + 1)
+                f = (self.fresh_name(used), False, self.tag(), t if r.random() < 0.6 else ("ptr", t))
+            if f is None:
+                f = (self.fresh_name(used), False, self.tag(), self.leaf(pkg))
+            used.add(f[0])
+            fs.append(f)
+        if fs and r.random() < 0.15:
+            fs.append((self.fresh_name(used), False, "", r.choice([("struct", ()), ("array", 0, P("int64"))])))
+        return ("struct", tuple(fs))
+
+    # ---- variants of the first body
+    def rebase(self, t, src, dst):
+        """t written with the types of package dst instead of src (None if dst lacks one of the names)."""
+        k = t[0]
+        if k == "named":
+            if not is_foreign(t):
+                return t
+            nm = foreign_parts(t[1])[1]
+            if nm in FOREIGN[src]:
+                return foreign(dst, nm) if nm in FOREIGN[dst] else None
+            if self.inner[dst].get(nm) is None:
+                u = self.rebase(self.inner[src][nm], src, dst)
+                if u is None:
+                    return None
+                self.inner[dst][nm] = u
+                self.decls[dst].append(("%s/v1.%s" % (dst, nm), u))
+            return ("named", "%s/v1.%s" % (dst, nm), self.inner[dst][nm])
+        if k in ("slice", "ptr", "chan"):
+            u = self.rebase(t[1], src, dst)
+            return None if u is None else (k, u)
+        if k == "map":
+            a, b = self.rebase(t[1], src, dst), self.rebase(t[2], src, dst)
+            return None if a is None or b is None else (k, a, b)
+        if k == "array":
+            u = self.rebase(t[2], src, dst)
+            return None if u is None else (k, t[1], u)
+        if k == "struct":
+            fs = []
+            for (n, e, tg, ft) in t[1]:
+                u = self.rebase(ft, src, dst)
+                if u is None:
+                    return None
+                fs.append((n, e, tg, u))
+            return (k, tuple(fs))
+        return t
+
+    def variant(self, base, src, dst, v):
+        r = self.rng
+        save = (list(self.decls[dst]), dict(self.inner[dst]))
+        b = self.rebase(base, src, dst)
+        if b is None:
+            self.decls[dst], self.inner[dst] = save
+            return None
+        fs = list(b[1])
+        used = {f[0] for f in fs}
+        if v in ("retyped", "mixed"):
+            plain = [i for i, f in enumerate(fs) if not f[1]]
+            for i in r.sample(plain, (len(plain) + 1) // 2):
+                n, e, tg, ft = fs[i]
+                for _ in range(8):
+                    u = self.leaf(dst)
+                    if u != ft:
+                        break
+                fs[i] = (n, e, tg, u)
+        if v in ("renamed", "mixed"):
+            plain = [i for i, f in enumerate(fs) if not f[1]]
+            for i in r.sample(plain, (len(plain) + 1) // 2):
+                n, e, tg, ft = fs[i]
+                if r.random() < 0.5:
+                    n = self.fresh_name(used)
+                    used.add(n)
+                else:
+                    tg = r.choice(['hseq:"%s"' % r.choice(sorted(used)), 'hseq:"%s"' % self.fresh_name(used), ""]) if tg == "" else ""
+                fs[i] = (n, e, tg, ft)
+        if v == "mixed" and fs:
+            if len(fs) > 1 and r.random() < 0.5:
+                fs.pop(r.randrange(len(fs)))
+            else:
+                fs.insert(r.randrange(len(fs) + 1), (self.fresh_name(used), False, self.tag(), self.leaf(dst)))
+        if v in ("permuted", "mixed") and len(fs) > 1:
+            for _ in range(8):
+                g = list(fs)
+                r.shuffle(g)
+                if g != fs:
+                    fs = g
+                    break
+        return ("struct", tuple(fs))
+
+
+def corner_twins(idx):
+    """Hand-written groups, part of every batch; the order in which the harness process meets the members rotates with
+    the batch index.  -> [(name, [(pkg, variant, decls, type)])]"""
+    I8, I16, I32, I64, S, B = P("int8"), P("int16"), P("int32"), P("int64"), P("string"), P("bool")
+
+    def N(pkg, nm, body):
+        return ("named", "%s/v1.%s" % (pkg, nm), body)
+    # Box: three layouts.  B is an int64 at offset 8 (pa), at offset 0 (pb), a string (pc); Guard/Name follow or precede it;
+    # the embedded BoxIn differs as well; pc has neither BoxIn nor an int64 field named B
+    ia = N("pa", "BoxIn", ("struct", (("X", False, "", I16), ("Y", False, "", I64))))
+    ib = N("pb", "BoxIn", ("struct", (("Y", False, "", I64), ("W", False, "", B), ("X", False, "", I16))))
+    ba = N("pa", "Box", ("struct", (("A", False, "", I8), ("B", False, "", I64), ("Name", False, 'hseq:"N"', S), ("BoxIn", True, "", ia), ("Guard", False, "", I64))))
+    bb = N("pb", "Box", ("struct", (("B", False, "", I64), ("Guard", False, "", I64), ("BoxIn", True, "", ib), ("A", False, "", I8), ("Name", False, "", S))))
+    bc = N("pc", "Box", ("struct", (("Pad", False, "", I64), ("B", False, "", S), ("C", False, "", foreign("pc", "ID")), ("Name", False, 'hseq:"Name"', ("slice", P("uint8"))), ("A", False, 'hseq:"N"', I32))))
+    # Doc: the same layout (and source text) in two packages
+    body = ("struct", (("Id", False, "", I32), ("Title", False, 'hseq:"T"', S), ("Meta", False, "", ("struct", (("X", False, "", I8), ("Y", False, "", I64)))), ("Tags", False, "", ("slice", S)), ("N", False, "", I8)))
+    da, db = N("pa", "Doc", body), N("pb", "Doc", body)
+    box = [("pa", "base", [ia, ba], ba), ("pb", "mixed", [ib, bb], bb), ("pc", "fresh", [bc], bc)]
+    doc = [("pb", "base", [db], db), ("pa", "same-source", [da], da)]
+    k = idx % 3
+    box = box[k:] + box[:k]
+    if idx % 2:
+        doc.reverse()
+    return [("Box", [(p, v, [(d[1], d[2]) for d in ds], t) for (p, v, ds, t) in box]), ("Doc", [(p, v, [(d[1], d[2]) for d in ds], t) for (p, v, ds, t) in doc])]
+
+
+def erase_pkg(t):
+    """t with the package of every harness-package type erased (the underlying types stay): equal for two types iff they
+    are written alike AND laid out alike."""
+    k = t[0]
+    if k == "named":
+        return ("named", "*/" + t[1].split("/", 1)[1], erase_pkg(t[2])) if is_foreign(t) else t
+    if k in ("slice", "ptr", "chan"):
+        return (k, erase_pkg(t[1]))
+    if k == "map":
+        return (k, erase_pkg(t[1]), erase_pkg(t[2]))
+    if k == "array":
+        return (k, t[1], erase_pkg(t[2]))
+    if k == "struct":
+        return (k, tuple((n, e, tg, erase_pkg(ft)) for (n, e, tg, ft) in t[1]))
+    return t
+
+
+def twin_relation(first, later):
+    """How the listing of a same-printing container relates to the one the process unfolded FIRST (label of the input distribution)."""
+    sig = lambda sh: [(e["name"], e["key"], e["anon"], erase_pkg(e["type"])) for e in sh.listing]
+    a, b = sig(first), sig(later)
+    if a == b:
+        return "identical layout"
+    if sorted(map(repr, a)) == sorted(map(repr, b)):
+        return "same fields, other order"
+    ka, kb = {e["key"] for e in first.listing}, {e["key"] for e in later.listing}
+    ta, tb = {x[3] for x in a}, {x[3] for x in b}
+    return "%s keys, %s types" % ("same" if ka == kb else "overlapping" if ka & kb else "disjoint", "same" if ta == tb else "overlapping" if ta & tb else "disjoint")
+
+
+def make_twin_shapes(rng, idx, ngroups, ptr_embed=True):
+    """The same-printing container shapes of batch idx: the hand-written groups plus ngroups random ones.  Members of a group
+    are consecutive shapes, in the order the harness process will meet them (the first one is the one a per-name memo would serve)."""
+    groups = corner_twins(idx)
+    names = [n for n in TWIN_NAMES if n not in ("Box", "Doc")]
+    rng.shuffle(names)
+    while len(groups) < 2 + ngroups:
+        pkgs = sorted(FOREIGN)
+        rng.shuffle(pkgs)
+        pkgs = pkgs[:rng.choice([2, 2, 3])]
+        g = TwinGen(rng, names[len(groups) - 2], pkgs, ptr_embed=ptr_embed)
+        ms = [(p, v, g.decls[p], t) for (p, v, t) in g.members]
+        if any(len(flatten(t)) > 48 or len(value_paths(t)) > 90 for (_, _, _, t) in ms):
+            continue
+        groups.append((g.name, ms))
+    shapes = []
+    for (name, ms) in groups:
+        grp = []
+        for pos, (p, v, decls, t) in enumerate(ms):
+            sh = Shape(TWIN_SID0 + 1000 * idx + len(shapes) + len(grp), t, decls)
+            sh.twin_group, sh.twin_pos, sh.twin_variant, sh.pkg = name, pos, v, p
+            grp.append(sh)
+        for sh in grp:
+            sh.twins = [o for o in grp if o is not sh]
+            sh.twin_relation = "first of its group" if sh.twin_pos == 0 else twin_relation(grp[0], sh)
+        shapes += grp
+    return shapes
+
+
+
 # ------------------------------------------------------------------ Go emission
 
 def gostrlit(s):
@@ -622,13 +931,18 @@ class Emitter:
 
     def __init__(self):
         self.decl_lines, self.body, self.declared = [], [], set()
+        self.foreign = {}    # harness package -> [(Name, underlying)] declared there by this batch
         self.requests = []   # (request string, meta dict)
 
     def declare(self, decls):
         for (i, u) in decls:
             if i not in self.declared:
                 self.declared.add(i)
-                self.decl_lines.append("type %s %s" % (i, gosrc(u)))
+                if "/" in i:      # a type of a harness package (`pa/v1.Box`): declared in harness/pa/v1/v1.go
+                    d, nm = foreign_parts(i)
+                    self.foreign.setdefault(d, []).append((nm, u))
+                else:
+                    self.decl_lines.append("type %s %s" % (i, gosrc(u)))
 
     def req(self, req, meta):
         self.requests.append((req, meta))
@@ -743,6 +1057,49 @@ def emit_lookups(em, sh, rng, chunk):
         r = "fmap %d %d %d" % (sid, k, n)
         em.req(r, dict(kind="fmap", sid=sid, k=k, n=n))
         chunk.append("\tfmapTrace[%s](%s, %d, %d)" % (T, gostrlit(r), k, n))
+
+
+def uniq(xs):
+    out = []
+    for x in xs:
+        if x not in out:
+            out.append(x)
+    return out
+
+
+def emit_twin_lookups(em, sh, rng, chunk):
+    """C03, containers that print like another container of the batch: lookups on THIS container by the names, keys and types
+    of the OTHER ones (what a listing memoized under the printed name would answer for), next to the ordinary stream."""
+    T, sid = sh.gotype, sh.sid
+    own_types = uniq(e["type"] for e in sh.listing)
+    for tw in sh.twins:
+        keys = uniq(k for e in tw.listing for k in (e["key"], e["name"]))
+        rng.shuffle(keys)
+        keys.sort(key=lambda k: (sh.first_by_key(k) is None) == (tw.first_by_key(k) is None) and (sh.first_by_key(k) or {}).get("id") == (tw.first_by_key(k) or {}).get("id"))
+        for nm in keys[:4]:
+            r = "forname %d %s" % (sid, nm)
+            em.req(r, dict(kind="forname", sid=sid, name=nm, twin=tw.sid))
+            chunk.append("\tforName[%s](%s, %s)" % (T, gostrlit(r), gostrlit(nm)))
+        for nm in keys[:2]:
+            r = "fornamemaybe %d %s" % (sid, nm)
+            em.req(r, dict(kind="fornamemaybe", sid=sid, name=nm, twin=tw.sid))
+            chunk.append("\tforNameMaybe[%s](%s, %s)" % (T, gostrlit(r), gostrlit(nm)))
+        types = uniq(e["type"] for e in tw.listing)
+        rng.shuffle(types)
+        types.sort(key=lambda t: t in own_types)      # stable: the types only the other container lists come first
+        for t in types[:3]:
+            r = "fortype %d %s" % (sid, sh.sx(t))
+            em.req(r, dict(kind="fortype", sid=sid, type=t, twin=tw.sid))
+            chunk.append("\tforType[%s, %s](%s)" % (T, gosrc(t), gostrlit(r)))
+        sel = [rng.choice(keys) for _ in range(rng.randint(1, 4))]
+        r = "new %d $S %s" % (sid, " ".join(sel))
+        em.req(r, dict(kind="new", sid=sid, names=sel, T="S", twin=tw.sid))
+        chunk.append("\tnewNames[%s](%s, %s)" % (T, gostrlit(r), ", ".join(gostrlit(x) for x in sel)))
+        n = rng.randint(1, 4)
+        ws = [rng.choice(types if rng.random() < 0.5 else own_types) for _ in range(n)]
+        r = "newn %d $S %s" % (sid, " ".join(sh.sx(t) for t in ws))
+        em.req(r, dict(kind="newn", sid=sid, types=ws, twin=tw.sid))
+        chunk.append("\temit(%s, try(func() string { return showIDs(hseq.New%d[%s, %s]()) }))" % (gostrlit(r), n, T, ", ".join(gosrc(t) for t in ws)))
 
 
 def emit_views(em, sh):
@@ -954,6 +1311,49 @@ def emit_negative(em, sh, rng, chunk):
                 chunk.append("\treflDyn(%s, mk, %s, wp, wn, %s)" % (gostrlit(req), dgo, gostrlit(op)))
         chunk.append("\t_ = ps; _ = other }")
     emit_negative_names(add, sh, rng)
+    if sh.twins:
+        emit_negative_twins(add, sh, rng)
+
+
+def emit_negative_twins(add, sh, rng):
+    """C02, containers that print like another container of the batch: derivations on THIS container asked for with the
+    names and focus types the OTHER container has.  Where this container has no such name, another type under that name or
+    no field of that type the request must panic; where both agree it is a control (the window must be this container's).
+    Draws from a copy of the stream's state (the requests emitted before stay what they were)."""
+    import random
+    sub = random.Random()
+    sub.setstate(rng.getstate())
+    r = random.Random(sub.getrandbits(64) ^ 0x7717)
+    L = sh.listing
+    fam = lambda: r.choice(["P", "S"])
+    own = [e for e in L if sh.first_by_key(e["key"]) is e]
+    for tw in sh.twins:
+        theirs = [e for e in tw.listing if tw.first_by_key(e["key"]) is e]
+        # by name: the other container's (key, type) pairs
+        clash = [e for e in theirs if sh.first_by_key(e["key"]) is None or sh.first_by_key(e["key"])["type"] != e["type"]]
+        agree = [e for e in theirs if e not in clash]
+        for _ in range(2):
+            if not clash:
+                break
+            n = r.randint(1, 3)
+            es = [r.choice(own) for _ in range(n)]
+            types, names = [e["type"] for e in es], [e["key"] for e in es]
+            j = r.randrange(n)
+            e = r.choice(clash)
+            types[j], names[j] = e["type"], e["key"]
+            add(fam(), "S", "$S", sh.gotype, types, names, "same-print-container-name+type-of-the-other", twin=tw.sid)
+        if agree:
+            es = [r.choice(agree) for _ in range(r.randint(1, 4))]
+            add(fam(), "S", "$S", sh.gotype, [e["type"] for e in es], [e["key"] for e in es], "control-same-print-container-common-fields", twin=tw.sid)
+        # by type: a type only the other container lists
+        only = uniq(e["type"] for e in tw.listing if sh.first_by_type(e["type"]) is None)
+        if only:
+            n = r.randint(1, 3)
+            es = [sh.first_by_type(r.choice(L)["type"]) for _ in range(n)]
+            types = [e["type"] for e in es]
+            types[r.randrange(n)] = r.choice(only)
+            add(fam(), "S", "$S", sh.gotype, types, [], "same-print-container-type-of-the-other", twin=tw.sid)
+        # the other container itself as T is another request stream (its own shape); a pointer to it must panic like any pointer
 
 
 def emit_negative_names(add, sh, rng):
@@ -1003,7 +1403,7 @@ def emit_negative_names(add, sh, rng):
 
 
 def build(shapes, rng, want):
-    """want ⊆ {"layout","lookups","lens","negative"} → (go source, requests)."""
+    """want ⊆ {"layout","lookups","lens","negative"} → (go source, requests, {harness package: [(Name, underlying)] declared there})."""
     em = Emitter()
     for sh in shapes:
         em.declare(sh.decls)
@@ -1017,13 +1417,15 @@ def build(shapes, rng, want):
             chunk.append('\temit(%s, fmt.Sprintf("%%d %%d", unsafe.Sizeof(*new(%s)), unsafe.Alignof(*new(%s))))' % (gostrlit(r), sh.gotype, sh.gotype))
         if "lookups" in want:
             emit_lookups(em, sh, rng, chunk)
+            if sh.twins:
+                emit_twin_lookups(em, sh, rng, chunk)
         if "lens" in want:
             emit_views(em, sh)
             emit_lens_tuples(em, sh, rng, chunk)
         if "negative" in want:
             emit_negative(em, sh, rng, chunk)
         em.body.append(chunk)
-    return em.source(), em.requests
+    return em.source(), em.requests, em.foreign
 
 
 def parse_output(lines):
@@ -1055,8 +1457,9 @@ def replaces():
 
 
 class Batch:
-    def __init__(self, idx, shapes, src, requests):
+    def __init__(self, idx, shapes, src, requests, foreign=None):
         self.idx, self.shapes, self.src, self.requests = idx, shapes, src, requests
+        self.foreign = foreign or {}       # types this batch declares in the harness packages (same-printing containers)
         self.by_sid = {s.sid: s for s in shapes}
         self.impl = self.model = None      # result strings aligned with self.requests
         self.chk = {}                      # request -> direct-oracle verdict printed by the harness
@@ -1080,7 +1483,7 @@ def apply_replay(ctx):
         ctx.note("replay of %s: seed=%d tier=%s" % (ctx.replay, ctx.seed, ctx.tier))
 
 
-def run_batches(ctx, oracle, want, sizes, ptr_embed=True, seed_tag=0):
+def run_batches(ctx, oracle, want, sizes, ptr_embed=True, seed_tag=0, twin_groups=None):
     """Generate len(sizes) batches (sizes[i] shapes each; the first gets the corner shapes), build and
     run the harness for each (in parallel), run the oracle on the printed requests.  Returns the batches.
     Records broken ties in ctx.broken (harness does not build / request stream mismatch)."""
@@ -1092,8 +1495,11 @@ def run_batches(ctx, oracle, want, sizes, ptr_embed=True, seed_tag=0):
         rng = random.Random((ctx.seed * 7919 + seed_tag) * 1000 + i)
         shs = make_shapes(rng, n, first_sid=sid, ptr_embed=ptr_embed, corners=(i == 0))
         sid += len(shs)
-        src, reqs = build(shs, rng, want)
-        batches.append(Batch(i, shs, src, reqs))
+        # same-printing containers (declared in harness/pa|pb|pc/v1): appended, own generator and sid range, so that
+        # the shapes and requests before them are what they were
+        shs += make_twin_shapes(random.Random((ctx.seed * 7919 + seed_tag) * 1000 + 500 + i), i, twin_groups if twin_groups is not None else (3 if ctx.thorough() else 1), ptr_embed=ptr_embed)
+        src, reqs, fdecls = build(shs, rng, want)
+        batches.append(Batch(i, shs, src, reqs, fdecls))
     obin = ctx.oracle_bin()
 
     import inspect, threading, contextlib
@@ -1106,7 +1512,7 @@ def run_batches(ctx, oracle, want, sizes, ptr_embed=True, seed_tag=0):
             kw = {"suffix": "-%s-%d" % (oracle, b.idx)} if has_suffix else {}
             import time
             t0 = time.time()
-            binp, err = ctx.harness("layout", replaces(), extra_files=dict(foreign_files(), **{"shapes_gen.go": b.src}), **kw)
+            binp, err = ctx.harness("layout", replaces(), extra_files=dict(foreign_files(b.foreign), **{"shapes_gen.go": b.src}), **kw)
             b.build_s = time.time() - t0
             if binp is None:
                 b.error = "harness does not build: " + (err or "")[-3000:]
@@ -1175,13 +1581,36 @@ def shape_hist(ctx, sh):
     for e in sh.listing:
         t = strip(e["type"])
         ctx.hist("field_kind", t[1] if t[0] == "prim" else t[0])
+    # container types that reflect prints identically (`v1.Box` of harness/pa/v1 and of harness/pb/v1), used by one process
+    ctx.hist("container_declared_in", "harness/%s/v1 (prints v1.%s)" % (sh.pkg, sh.twin_group) if sh.twins else "main")
+    if sh.twins:
+        ctx.hist("same_printing_containers_in_process", 1 + len(sh.twins))
+        ctx.hist("same_printing_container_position", "unfolded first" if sh.twin_pos == 0 else "unfolded after another one")
+        ctx.hist("same_printing_container_vs_first", sh.twin_relation)
+        ctx.hist("same_printing_container_variant", sh.twin_variant)
+        if sh.twin_pos > 0:
+            ctx.hist("same_printing_container_order", "%s before %s" % (next(o for o in sh.twins if o.twin_pos == 0).pkg, sh.pkg))
+
+
+def godecl(i, u):
+    if "/" in i:
+        d, nm = foreign_parts(i)
+        return "package v1 (harness/%s/v1, imported as %s): type %s %s" % (d, FOREIGN_ALIAS[d], nm, gosrc(u, d))
+    return "type %s %s" % (i, gosrc(u))
 
 
 def case_of(b, req, meta):
     sh = b.by_sid[meta["sid"]]
-    ids = sorted({i for e in sh.listing for i in foreign_ids(e["type"])})
-    imports = "; ".join("import %s \"harness/%s/v1\" (package v1: type %s %s)" % (FOREIGN_ALIAS[d], d, n, gosrc(FOREIGN[d][n])) for d, n in map(foreign_parts, ids))
-    return {"request": req, "shape": sexpr(sh.type), "go": "; ".join("type %s %s" % (i, gosrc(u)) for i, u in sh.decls) + ("; " + imports if imports else ""), "batch": b.idx}
+    own = dict(sh.decls)
+    ids = sorted({i for e in sh.listing for i in foreign_ids(e["type"]) if i not in own})
+    imports = "; ".join("import %s \"harness/%s/v1\" (package v1: type %s %s)" % (FOREIGN_ALIAS[d], d, n, gosrc(FOREIGN[d][n], d)) for d, n in map(foreign_parts, ids) if n in FOREIGN[d])
+    case = {"request": req, "shape": sexpr(sh.type), "go": "; ".join(godecl(i, u) for i, u in sh.decls) + ("; " + imports if imports else ""), "batch": b.idx}
+    if sh.twins:
+        # the other containers of the same printed name the process uses, in the order it meets them (this one at `position`)
+        grp = sorted(sh.twins + [sh], key=lambda o: o.twin_pos)
+        case["same_printing_containers"] = {"prints": gostr(sh.type), "position": sh.twin_pos, "in_process_order": [
+            {"container": gosrc(o.type), "shape": sexpr(o.type), "go": "; ".join(godecl(i, u) for i, u in o.decls)} for o in grp]}
+    return case
 
 
 def huge_offset_probe(ctx):
